@@ -5122,8 +5122,13 @@ func (c *linkerContext) generateEntryPointTailJS(
 				})
 			}
 
-			// Add annotations for re-exports: "{...require('./foo')}"
+			// Add annotations for re-exports: "{...require('./foo')}". This code is
+			// never evaluated but it must still parse, so only do this if the target
+			// environment supports object spread.
 			for _, importRecordIndex := range repr.AST.ExportStarImportRecords {
+				if c.options.UnsupportedJSFeatures.Has(compat.ObjectRestSpread) {
+					break
+				}
 				if record := &repr.AST.ImportRecords[importRecordIndex]; !record.SourceIndex.IsValid() {
 					moduleExports = append(moduleExports, js_ast.Property{
 						Kind:       js_ast.PropertySpread,
